@@ -1,5 +1,5 @@
 (* A REAL instance of the abstract API model of Tables/ApiModel.v (tables engine, property C04).
-   Executable definitions only; proofs in Tables/RealProofs.v.
+   Executable definitions only; proofs in Tables/RealProofs.v and Tables/RealKernels.v.
 
      Sh        := Shape.ShapeImpl.shape          the uint32 shape model of C09
      T         := tensor = (valid, shape, data)  data : list R, R the scalar type (any type with
@@ -19,7 +19,7 @@
      guard_sem := real_guard   the six value guards of the Device entries
      val_sem   := real_val     a Device entry / Tensor method / operand / composite returns
                                tensors whose shapes are computed by the rule that
-                               Tensor/FrontEnd.v transcribes for THAT entry (table [fe_entries];
+                               Tensor/FrontEnd.v transcribes for THAT entry (function [fe_entry];
                                independent of the table's own shape expression) and whose data,
                                for the core family of Tensor/GraphInst.v, is the forward of the
                                kernel index programs of Tensor/Kernels.v ([core_data]); for the
